@@ -361,7 +361,11 @@ class DataFormat(object):
             self.item_delimiter = item_delimiter
         elif name == KEY_LINE_DELIMITER:
             try:
-                self.line_delimiter = _TEXT_TO_LINE_DELIMITER_MAP[value.lower()]
+                line_delimiter = _TEXT_TO_LINE_DELIMITER_MAP[value.lower()]
+                if (line_delimiter is None) and (self.format != FORMAT_FIXED):
+                    # Only fixed data can do without a line delimiter.
+                    raise KeyError(value)
+                self.line_delimiter = line_delimiter
             except KeyError:
                 raise errors.InterfaceError(
                     "line delimiter %s must be changed to one of: %s"
